@@ -159,6 +159,8 @@ def origins(f: FuncInfo, expr: ast.AST, defs: Optional[Dict[str, List[ast.expr]]
                 if isinstance(e.func, ast.Attribute):
                     visit(e.func.value)
             else:
+                if isinstance(e.func, ast.Attribute):
+                    out.add(f"call:.{e.func.attr}")
                 visit(e.func)
             for a in e.args:
                 visit(a)
